@@ -6,6 +6,18 @@ HERE = os.path.dirname(os.path.dirname(os.path.abspath(__file__)))
 TECH = "bounded symbolic execution of the real Go code (go/ssa -> SMT-LIB bit-vectors), z3 decides every assertion/panic/branch; counterexamples replayed natively"
 
 CHECKS = {
+ "C14": dict(
+   text="Real ReadBodyStream/bodyStream.Read/skipRest/ReleaseBodyStream inside the real Serve loop over the real standard.Conn, with symbolic body bytes and every consumption program within the bounds (0..R reads with buffer sizes from {0,1,3,16}, stop anywhere), fixed-length (with prefetch limits 0/1/3) and chunked bodies, delivered whole or byte-wise, followed by a pipelined sentinel: bytes read are a prefix of the body, EOF only at its end, no network read beyond the body while streaming, the sentinel is parsed from the first byte after the body, and exactly one well-formed response per handled request.",
+   note="one open known finding (prefetch swallowing pipelined bytes when 0 < MaxRequestBodySize < Content-Length) is reported as KNOWN-FINDING; small-body regime only",
+   ref="DESIGN.md §4 C14"),
+ "C18": dict(
+   text="Only the sequential clauses of C18 are decided by this technique: with the engine's running flag turning false at a symbolic request index, the real Serve loop completes that request's response with Connection: close, handles nothing afterwards and returns errShortConnection. Hook execution, listener closing, the wait bound and every timing/interleaving clause of C18 are not addressed (no scheduler or clock in the encoding).",
+   note="narrowed claim (DESIGN.md §4 C18); the rest of C18 is outside solver-based checking of sequential code",
+   ref="DESIGN.md §4 C18"),
+ "C19": dict(
+   text="The whole real Server.Serve with its deferred epilogue, the real stats.Controller and traceinfo are executed from SSA for every history within the bounds: k<=2 template requests, handler outcome (ok / Connection: close / recovered panic), truncation of the stream at every byte position, one I/O fault at a symbolic operation index (read or write side), keep-alive on/off, idle timeout zero/non-zero, streaming on/off. The tracer log must alternate start/finish, each handled request must be bracketed by its own pair, and stage events must be ordered with every started stage finished.",
+   note="histories are finite choices (the fault index is a symbolic integer decided lazily by z3); request bytes concrete; clock stub monotone; netpoll's poller mode only as IdleTimeout==0",
+   ref="DESIGN.md §4 C19"),
  "C01": dict(
    text="The real header reader, body readers and Server.Serve loop run symbolically over the real standard.Conn: (H1) every 14/17-byte header name (all byte values; with key normalising on, every 2-byte window of the canonical name in quick, all bytes in thorough) influences framing iff it equals Content-Length/Transfer-Encoding ignoring ASCII case; (H2) every spelling of the Content-Length value up to D bytes either frames exactly v symbolic body bytes and leaves the next request intact, or is refused with one 400 + Connection: close and no handler; (H3) chunked bodies with symbolic size spellings and payload bytes deliver the concatenation and resume at the next request; (H4) k pipelined template requests are handled once each, in order, with one response each.",
    note="transport = real standard.Conn over a harness net.Conn (netpoll outside); small bodies; templates for H4 are concrete (the solver ranges over choices and fragment size there); bounds in evidence",
